@@ -4,6 +4,7 @@ with @contract(target); its functions `requires`, `ensures_<label>`,
 functions: pyvc interprets their AST symbolically, CPython calls them natively."""
 import ast
 import inspect
+import os
 import sys
 
 from .modules import _matches_head, ModuleInfo, find_function
@@ -50,8 +51,17 @@ class Contract(object):
             # its result the declared live-out variables; everything of the enclosing function outside the statement is dropped
             self.node.args.args = [ast.arg(arg=p, annotation=None) for p in self.params]
             head = getattr(self.cls, "fragment_head", None)
+            self.head_changed = None
             if head is not None and getattr(self.node, "first_stmt", None) is not None and not _matches_head(self.node.first_stmt, head):
-                raise KeyError("fragment of %s no longer starts with %r (found %r)" % (self.target, head, self.node.first_text))
+                kind = self.target.split("@")[-1].split(":")[0]
+                if kind in ("while", "whilebody", "for", "forbody") and head.strip().endswith(":") and os.environ.get("VERIF_STRICT_HEADERS") != "1":
+                    # the loop with this ordinal no longer has the header the contract recorded (and no other loop of the
+                    # function has it): the contract is TRIED on the loop as it is now - a complete proof is a proof of that loop,
+                    # anything else counts as outside the subset for this run, except refutations that replay natively
+                    # (pyvc.verify / pyvc.driver: `tentative`)
+                    self.head_changed = "fragment header changed: expected %r, found %r" % (head, self.node.first_text.split("\n")[0])
+                else:
+                    raise KeyError("fragment of %s no longer starts with %r (found %r)" % (self.target, head, self.node.first_text))
             outs = tuple(getattr(self.cls, "fragment_result", ()))
             ret = ast.Return(value=ast.Tuple(elts=[ast.Name(id=o, ctx=ast.Load()) for o in outs], ctx=ast.Load()))
             last = self.node.body[-1]
